@@ -72,6 +72,8 @@ RegionsAll   == {AllRegions[n] : n \in DOMAIN AllRegions}
 RegionsQuick == {AllRegions[n] : n \in {"circle2", "ellipseC", "circleH", "rect", "rectH", "boxC",
                                         "triC", "triH", "tetC", "shell", "ball2"}}
 
+RegionsPairs == {AllRegions[n] : n \in {"ellipseC", "rectH", "boxC", "triC", "tetC", "shell"}}
+
 \* the same point set with the opposite orientation
 Rev(r) == CASE r.k = "ell" -> [r EXCEPT !.s = <<r.s[1], RNeg(r.s[2]), r.s[3]>>]
             [] r.k = "tri" -> [r EXCEPT !.s = <<r.s[1], r.s[2], RNeg(r.s[3])>>]
